@@ -2,7 +2,7 @@
 # usage: run_seeds.sh <seed-id>...   (ids under /verif/seeded, e.g. C09-m1). Runs the property's quick check against a
 # scratch worktree of /repo with the seeded change applied. Nothing in /repo or /verif/evidence is touched.
 export GOFLAGS=-mod=mod GOPROXY=off
-mkdir -p /tmp/seedroot && cp -r /verif/replay /verif/lemmas /verif/known_findings.json /verif/unclaimed.json /tmp/seedroot/ 2>/dev/null
+mkdir -p /tmp/seedroot && cp -r /verif/replay /verif/lemmas /verif/bounded /verif/known_findings.json /verif/unclaimed.json /tmp/seedroot/ 2>/dev/null
 for id in "$@"; do
   d=/verif/seeded/$id
   prop=${id%%-*}
